@@ -57,9 +57,10 @@ const (
 	sWrongKey     = "wrong-key"
 	sBadSig       = "corrupted-handshake-signature"
 	sBadSKXWire   = "corrupted-skx-on-wire"
+	sWrongEKU     = "client-auth-eku-only" // chain to the trusted root, leaf's extended key usage names clientAuth only
 )
 
-var srvScenarios = []string{sOK, sOKInter, sMissingInter, sUntrusted, sUntrustedExt, sSameName, sSelfSigned, sBadCertSig, sWrongName, sWrongKey, sBadSig, sBadSKXWire}
+var srvScenarios = []string{sOK, sOKInter, sMissingInter, sUntrusted, sUntrustedExt, sSameName, sSelfSigned, sBadCertSig, sWrongName, sWrongKey, sBadSig, sBadSKXWire, sWrongEKU}
 
 // client scenarios
 const (
@@ -198,6 +199,9 @@ func expect(c Case) expectation {
 func serverCert(c Case) tls.Certificate {
 	wd := theWorld()
 	eku := x509.ExtKeyUsageServerAuth
+	if c.Srv == sWrongEKU {
+		eku = x509.ExtKeyUsageClientAuth // does not verify for server authentication (x509.Verify's default usage)
+	}
 	priv := keys.ByName(c.SKey).ZPriv
 	var chain []*x509.Certificate
 	switch c.Srv {
